@@ -1,0 +1,153 @@
+//go:build verif
+
+// Contracts read by the verification tooling in /verif (build tag "verif"; comment-only).
+package gltf
+
+// C06: buffer views and accessors describe the bytes that were really written.
+//
+// The binary payload goes through w.bitW (a bitlib.Writer with a sticky error over w.buf); w.bytesWritten is the
+// writer's own count.  written(w.bitW.out) is the ghost number of bytes that reached the buffer.  Every Write*
+// method appends exactly one accessor and one buffer view: the view starts where the previous data ended, its
+// length is what was written, the accessor points at it and count * components * componentSize is its length.
+// bitlib's contracts live in /verif/contracts/ext/bitlib.contracts and are verified against its source.
+
+//@ func AccessorComponentType.Size pure
+//@   props C06
+
+//@ func ptrI
+//@   props C06
+//@   returns p
+//@   ensures p != nil && fresh(p) && deref(p) == i
+
+//@ spec wOK(w *Writer) bool = w != nil && w.bitW != nil && len(w.bitW.buf) >= 8
+//@ spec lastView(w *Writer) BufferView = w.bufferViews[len(w.bufferViews) - 1]
+//@ spec lastAccessor(w *Writer) Accessor = w.accessors[len(w.accessors) - 1]
+
+//@ func Writer.WriteIndices
+//@   props C06
+//@   modifies w, w.bitW, w.bitW.buf, w.accessors, w.bufferViews, ghost written
+//@   requires wOK(w) && indices != nil
+//@   requires indices_address_the_attributes: forall i int :: 0 <= i && i < len(indices.data) ==> 0 <= indices.data[i] && indices.data[i] < attributeSize
+//@   requires attributeSize <= 4294967296
+//@   ensures still_ok: wOK(w) && w.bitW == old(w.bitW) && w.bitW.out == old(w.bitW.out)
+//@   ensures count_tracks_the_buffer: w.bitW.err == nil ==> written(w.bitW.out) - w.bytesWritten == old(written(w.bitW.out)) - old(w.bytesWritten)
+//@   ensures one_view_one_accessor: len(w.accessors) == old(len(w.accessors)) + 1 && len(w.bufferViews) == old(len(w.bufferViews)) + 1
+//@   ensures view_covers_the_new_bytes: lastView(w).ByteOffset == old(w.bytesWritten) && lastView(w).ByteOffset + lastView(w).ByteLength == w.bytesWritten && lastView(w).ByteLength >= 0
+//@   ensures accessor_points_at_the_view: lastAccessor(w).BufferView != nil && deref(lastAccessor(w).BufferView) == old(len(w.bufferViews)) && lastAccessor(w).Count == len(indices.data)
+//@   ensures accessor_fills_the_view: lastAccessor(w).Count * lastAccessor(w).ComponentType.Size() == lastView(w).ByteLength
+//@   ensures short_indices_fit: lastAccessor(w).ComponentType == AccessorComponentType_UNSIGNED_SHORT ==> attributeSize <= 65535
+//@   ensures index_component_type: lastAccessor(w).ComponentType == AccessorComponentType_UNSIGNED_SHORT || lastAccessor(w).ComponentType == AccessorComponentType_UNSIGNED_INT
+//@   ensures earlier_entries_kept: forall k int :: 0 <= k && k < old(len(w.bufferViews)) ==> w.bufferViews[k] == old(w.bufferViews[k])
+//@   loop 1:
+//@     invariant 0 <= i && i <= len(indices.data) && wOK(w) && w.bitW == old(w.bitW) && w.bitW.out == old(w.bitW.out) && w.bitW.buf == old(w.bitW.buf)
+//@     invariant w.bitW.err == nil ==> written(w.bitW.out) == old(written(w.bitW.out)) + 4 * i
+//@     invariant w.bytesWritten == old(w.bytesWritten) && w.accessors == old(w.accessors) && w.bufferViews == old(w.bufferViews)
+//@   loop 2:
+//@     invariant 0 <= i && i <= len(indices.data) && wOK(w) && w.bitW == old(w.bitW) && w.bitW.out == old(w.bitW.out) && w.bitW.buf == old(w.bitW.buf)
+//@     invariant w.bitW.err == nil ==> written(w.bitW.out) == old(written(w.bitW.out)) + 2 * i
+//@     invariant w.bytesWritten == old(w.bytesWritten) && w.accessors == old(w.accessors) && w.bufferViews == old(w.bufferViews)
+
+//@ func Writer.WriteVector2AsFloat32
+//@   props C06
+//@   modifies w.bitW, w.bitW.buf, ghost written
+//@   requires w.bitW != nil && len(w.bitW.buf) >= 8
+//@   ensures nbytes_or_sticky_error8: w.bitW.err == nil ==> old(w.bitW.err) == nil && written(w.bitW.out) == old(written(w.bitW.out)) + 8
+//@   ensures same_stream: w.bitW.out == old(w.bitW.out) && w.bitW.buf == old(w.bitW.buf)
+
+//@ func Writer.WriteVector2AsByte
+//@   props C06
+//@   modifies w.bitW, w.bitW.buf, ghost written
+//@   requires w.bitW != nil && len(w.bitW.buf) >= 8
+//@   ensures nbytes_or_sticky_error2: w.bitW.err == nil ==> old(w.bitW.err) == nil && written(w.bitW.out) == old(written(w.bitW.out)) + 2
+//@   ensures same_stream: w.bitW.out == old(w.bitW.out) && w.bitW.buf == old(w.bitW.buf)
+
+//@ func Writer.WriteVector3AsFloat32
+//@   props C06
+//@   modifies w.bitW, w.bitW.buf, ghost written
+//@   requires w.bitW != nil && len(w.bitW.buf) >= 8
+//@   ensures nbytes_or_sticky_error12: w.bitW.err == nil ==> old(w.bitW.err) == nil && written(w.bitW.out) == old(written(w.bitW.out)) + 12
+//@   ensures same_stream: w.bitW.out == old(w.bitW.out) && w.bitW.buf == old(w.bitW.buf)
+
+//@ func Writer.WriteVector3AsByte
+//@   props C06
+//@   modifies w.bitW, w.bitW.buf, ghost written
+//@   requires w.bitW != nil && len(w.bitW.buf) >= 8
+//@   ensures nbytes_or_sticky_error3: w.bitW.err == nil ==> old(w.bitW.err) == nil && written(w.bitW.out) == old(written(w.bitW.out)) + 3
+//@   ensures same_stream: w.bitW.out == old(w.bitW.out) && w.bitW.buf == old(w.bitW.buf)
+
+//@ func Writer.WriteVector4AsFloat32
+//@   props C06
+//@   modifies w.bitW, w.bitW.buf, ghost written
+//@   requires w.bitW != nil && len(w.bitW.buf) >= 8
+//@   ensures nbytes_or_sticky_error16: w.bitW.err == nil ==> old(w.bitW.err) == nil && written(w.bitW.out) == old(written(w.bitW.out)) + 16
+//@   ensures same_stream: w.bitW.out == old(w.bitW.out) && w.bitW.buf == old(w.bitW.buf)
+
+//@ func Writer.WriteVector4AsByte
+//@   props C06
+//@   modifies w.bitW, w.bitW.buf, ghost written
+//@   requires w.bitW != nil && len(w.bitW.buf) >= 8
+//@   ensures nbytes_or_sticky_error4: w.bitW.err == nil ==> old(w.bitW.err) == nil && written(w.bitW.out) == old(written(w.bitW.out)) + 4
+//@   ensures same_stream: w.bitW.out == old(w.bitW.out) && w.bitW.buf == old(w.bitW.buf)
+
+//@ func Writer.WriteVector4
+//@   props C06
+//@   modifies w, w.bitW, w.bitW.buf, w.accessors, w.bufferViews, ghost written
+//@   requires wOK(w) && data != nil
+//@   requires written_component_types: accessorComponentType == AccessorComponentType_FLOAT || accessorComponentType == AccessorComponentType_UNSIGNED_BYTE
+//@   ensures still_ok: wOK(w) && w.bitW == old(w.bitW) && w.bitW.out == old(w.bitW.out)
+//@   ensures count_tracks_the_buffer: w.bitW.err == nil ==> written(w.bitW.out) - w.bytesWritten == old(written(w.bitW.out)) - old(w.bytesWritten)
+//@   ensures one_view_one_accessor: len(w.accessors) == old(len(w.accessors)) + 1 && len(w.bufferViews) == old(len(w.bufferViews)) + 1
+//@   ensures view_covers_the_new_bytes: lastView(w).ByteOffset == old(w.bytesWritten) && lastView(w).ByteOffset + lastView(w).ByteLength == w.bytesWritten && lastView(w).ByteLength >= 0
+//@   ensures accessor_points_at_the_view: lastAccessor(w).BufferView != nil && deref(lastAccessor(w).BufferView) == old(len(w.bufferViews)) && lastAccessor(w).Count == len(data.data)
+//@   ensures accessor_fills_the_view: lastAccessor(w).Count * 4 * lastAccessor(w).ComponentType.Size() == lastView(w).ByteLength && lastAccessor(w).ComponentType == accessorComponentType
+//@   ensures bounds_have_one_entry_per_component: len(lastAccessor(w).Min) == 4 && len(lastAccessor(w).Max) == 4
+//@   loop 1:
+//@     invariant 0 <= i && i <= len(data.data) && wOK(w) && w.bitW == old(w.bitW) && w.bitW.out == old(w.bitW.out) && w.bitW.buf == old(w.bitW.buf)
+//@     invariant w.bitW.err == nil ==> written(w.bitW.out) == old(written(w.bitW.out)) + 16 * i
+//@     invariant w.bytesWritten == old(w.bytesWritten) && w.accessors == old(w.accessors) && w.bufferViews == old(w.bufferViews)
+//@   loop 2:
+//@     invariant 0 <= i && i <= len(data.data) && wOK(w) && w.bitW == old(w.bitW) && w.bitW.out == old(w.bitW.out) && w.bitW.buf == old(w.bitW.buf)
+//@     invariant w.bitW.err == nil ==> written(w.bitW.out) == old(written(w.bitW.out)) + 4 * i
+//@     invariant w.bytesWritten == old(w.bytesWritten) && w.accessors == old(w.accessors) && w.bufferViews == old(w.bufferViews)
+
+//@ func Writer.WriteVector3
+//@   props C06
+//@   modifies w, w.bitW, w.bitW.buf, w.accessors, w.bufferViews, ghost written
+//@   requires wOK(w) && data != nil
+//@   requires written_component_types: accessorComponentType == AccessorComponentType_FLOAT || accessorComponentType == AccessorComponentType_UNSIGNED_BYTE
+//@   ensures still_ok: wOK(w) && w.bitW == old(w.bitW) && w.bitW.out == old(w.bitW.out)
+//@   ensures count_tracks_the_buffer: w.bitW.err == nil ==> written(w.bitW.out) - w.bytesWritten == old(written(w.bitW.out)) - old(w.bytesWritten)
+//@   ensures one_view_one_accessor: len(w.accessors) == old(len(w.accessors)) + 1 && len(w.bufferViews) == old(len(w.bufferViews)) + 1
+//@   ensures view_covers_the_new_bytes: lastView(w).ByteOffset == old(w.bytesWritten) && lastView(w).ByteOffset + lastView(w).ByteLength == w.bytesWritten && lastView(w).ByteLength >= 0
+//@   ensures accessor_points_at_the_view: lastAccessor(w).BufferView != nil && deref(lastAccessor(w).BufferView) == old(len(w.bufferViews)) && lastAccessor(w).Count == len(data.data)
+//@   ensures accessor_fills_the_view: lastAccessor(w).Count * 3 * lastAccessor(w).ComponentType.Size() == lastView(w).ByteLength && lastAccessor(w).ComponentType == accessorComponentType
+//@   ensures bounds_have_one_entry_per_component: len(lastAccessor(w).Min) == 3 && len(lastAccessor(w).Max) == 3
+//@   loop 1:
+//@     invariant 0 <= i && i <= len(data.data) && wOK(w) && w.bitW == old(w.bitW) && w.bitW.out == old(w.bitW.out) && w.bitW.buf == old(w.bitW.buf)
+//@     invariant w.bitW.err == nil ==> written(w.bitW.out) == old(written(w.bitW.out)) + 12 * i
+//@     invariant w.bytesWritten == old(w.bytesWritten) && w.accessors == old(w.accessors) && w.bufferViews == old(w.bufferViews)
+//@   loop 2:
+//@     invariant 0 <= i && i <= len(data.data) && wOK(w) && w.bitW == old(w.bitW) && w.bitW.out == old(w.bitW.out) && w.bitW.buf == old(w.bitW.buf)
+//@     invariant w.bitW.err == nil ==> written(w.bitW.out) == old(written(w.bitW.out)) + 3 * i
+//@     invariant w.bytesWritten == old(w.bytesWritten) && w.accessors == old(w.accessors) && w.bufferViews == old(w.bufferViews)
+
+//@ func Writer.WriteVector2
+//@   props C06
+//@   modifies w, w.bitW, w.bitW.buf, w.accessors, w.bufferViews, ghost written
+//@   requires wOK(w) && data != nil
+//@   requires written_component_types: accessorComponentType == AccessorComponentType_FLOAT || accessorComponentType == AccessorComponentType_UNSIGNED_BYTE
+//@   ensures still_ok: wOK(w) && w.bitW == old(w.bitW) && w.bitW.out == old(w.bitW.out)
+//@   ensures count_tracks_the_buffer: w.bitW.err == nil ==> written(w.bitW.out) - w.bytesWritten == old(written(w.bitW.out)) - old(w.bytesWritten)
+//@   ensures one_view_one_accessor: len(w.accessors) == old(len(w.accessors)) + 1 && len(w.bufferViews) == old(len(w.bufferViews)) + 1
+//@   ensures view_covers_the_new_bytes: lastView(w).ByteOffset == old(w.bytesWritten) && lastView(w).ByteOffset + lastView(w).ByteLength == w.bytesWritten && lastView(w).ByteLength >= 0
+//@   ensures accessor_points_at_the_view: lastAccessor(w).BufferView != nil && deref(lastAccessor(w).BufferView) == old(len(w.bufferViews)) && lastAccessor(w).Count == len(data.data)
+//@   ensures accessor_fills_the_view: lastAccessor(w).Count * 2 * lastAccessor(w).ComponentType.Size() == lastView(w).ByteLength && lastAccessor(w).ComponentType == accessorComponentType
+//@   ensures bounds_have_one_entry_per_component: len(lastAccessor(w).Min) == 2 && len(lastAccessor(w).Max) == 2
+//@   loop 1:
+//@     invariant 0 <= i && i <= len(data.data) && wOK(w) && w.bitW == old(w.bitW) && w.bitW.out == old(w.bitW.out) && w.bitW.buf == old(w.bitW.buf)
+//@     invariant w.bitW.err == nil ==> written(w.bitW.out) == old(written(w.bitW.out)) + 8 * i
+//@     invariant w.bytesWritten == old(w.bytesWritten) && w.accessors == old(w.accessors) && w.bufferViews == old(w.bufferViews)
+//@   loop 2:
+//@     invariant 0 <= i && i <= len(data.data) && wOK(w) && w.bitW == old(w.bitW) && w.bitW.out == old(w.bitW.out) && w.bitW.buf == old(w.bitW.buf)
+//@     invariant w.bitW.err == nil ==> written(w.bitW.out) == old(written(w.bitW.out)) + 2 * i
+//@     invariant w.bytesWritten == old(w.bytesWritten) && w.accessors == old(w.accessors) && w.bufferViews == old(w.bufferViews)
